@@ -95,7 +95,40 @@ def assign_configs(ctx, scripts):
             s["cfgs"] = [pool[(nt * 4 + j) % len(pool)] for j in range(4)]
             nt += 1
             continue
-        cs = 2 if i % 4 == 3 else 64      # a cache smaller than the key set: evictions
+        # cache sizes: smaller than the key set (evictions, records re-read from storage and kept), the usual 64, and
+        # 1024 (flush thresholds are computed in percent of the size: few pending writes are 0 percent)
+        cs = {3: 2, 1: 3, 6: 1024, 2: 1024}.get(i % 8, 64)
+        # two closing sweeps of Get over all keys: what was read from storage earlier and is still cached is read again
+        blank = {"op": "Get", "k": [], "data": [], "m": {"cr": 0, "exp": 0, "del": False, "rel": 0, "sec": False, "cj": False},
+                 "form": "", "pfx": [], "cond": {"op": "", "k": "and", "key": [], "val": {"b": False, "t": "none", "i": 0, "s": [], "l": []}, "sub": []},
+                 "x": 0, "batch": []}
+        if not s.get("swept"):
+            ks = [st["k"] for st in s["steps"] if st.get("k")]
+            uniq = []
+            for k in ks:
+                if k not in uniq:
+                    uniq.append(k)
+            puts = [st for st in s["steps"] if st["op"] in ("Put", "PutNew") and st.get("data")]
+            sweep = []
+            if puts:
+                # a batch put (documented cache bypass: the driver clears the read cache behind it), so that the
+                # following reads come from storage and their results stay in the cache ...
+                last = puts[-1]
+                sweep.append(dict(blank, op="PutMany", batch=[{"k": last["k"], "data": last["data"], "m": last["m"], "form": last["form"]}]))
+            sweep += [dict(blank, k=k) for k in uniq]
+            # ... while further writes go to storage (several transactions, so that freed pages are reused), and
+            # everything is read again after each round
+            for rnd_ in range(4):
+                seen = []
+                for st in reversed(puts[: len(puts) - rnd_] or puts):
+                    if st["k"] not in seen:
+                        seen.append(st["k"])
+                        sweep.append(dict(st, op="Put"))
+                    if len(seen) >= 3:
+                        break
+                sweep += [dict(blank, k=k) for k in uniq]
+            s["steps"] += sweep
+            s["swept"] = True
         sel = list(fast)
         if s["fs"]:
             sel += fst
